@@ -5,18 +5,42 @@ Rec == ndJsonDeserialize(IOEnv.TRACE)
 VARIABLE l
 Report(name, ok) == IF ok THEN TRUE ELSE PrintT(<<"T1", l, name>>)
 Pairs(seq) == {<<p[1], p[2]>> : p \in ToSet(seq)}
+(* soundness of the classes through the grounded reduct (frameworks of hundreds of arguments whose undecided part has small components): *)
+(* the complete extensions are G plus one complete extension per component of the reduct, chosen independently (ReductTheorem, Product)   *)
+SoundByReduct(af, classes) ==
+  LET G == GroundedFast(af)
+      D == AttackedBy(af, G)
+      red == RestrictAF(af, af.args \ (G \cup D))
+      comps == Components(red)
+      fam == [c \in comps |-> FamFast(RestrictAF(af, c), "CO")]
+      compOf(x) == CHOOSE c \in comps : x \in c
+      Always(x) == x \in G \/ (x \in red.args /\ \A E \in fam[compOf(x)] : x \in E)
+      Never(x) == x \in D \/ (x \in red.args /\ \A E \in fam[compOf(x)] : x \notin E)
+  IN \A C \in classes : \A a \in C : \A b \in C :
+        IF a \in red.args /\ b \in red.args /\ compOf(a) = compOf(b)
+        THEN \A E \in fam[compOf(a)] : (a \in E) <=> (b \in E)
+        ELSE (Always(a) /\ Always(b)) \/ (Never(a) /\ Never(b))
+(* "in particular all arguments of the grounded extension together, and all arguments it defeats together" *)
+GroundedTogether(af, classes) ==
+  LET G == GroundedFast(af)
+      D == AttackedBy(af, G)
+  IN /\ (G # {} => \E C \in classes : G \subseteq C)
+     /\ (D # {} => \E C \in classes : D \subseteq C)
 Judge(e) ==
   LET af == [args |-> ToSet(e.args), att |-> Pairs(e.att)]
       classes == {ToSet(c) : c \in ToSet(e.classes)}
       toRed == Pairs(e.to_reduced)                       \* <<argument, index of its reduced argument>>
+      big == "big" \in DOMAIN e
   IN
   /\ Report("C19:returns", ~e.panic)
   /\ ~e.panic =>
+       /\ Report("C19:grounded_and_defeated_arguments_together", GroundedTogether(af, classes))
        /\ Report("C19:merged_arguments_indistinguishable",
+                 IF big THEN SoundByReduct(af, classes) ELSE
                  IF e.core_n > 0
                  THEN LET co == LiftedFam(af, 1..e.core_n, "CO") IN \A C \in classes : \A a \in C : \A b \in C : \A E \in co : (a \in E) <=> (b \in E)
                  ELSE SoundClasses(af, classes))
-       /\ (af.args = 1..Cardinality(af.args) /\ e.core_n = 0) => Report("T2:classes_equal_EquivAlgo", Classes(af) = classes)   \* translation validation, not a verdict
+       /\ (af.args = 1..Cardinality(af.args) /\ e.core_n = 0 /\ ~big) => Report("T2:classes_equal_EquivAlgo", Classes(af) = classes)   \* translation validation, not a verdict
        /\ Report("C19:classes_partition_arguments", Partition(af, classes) /\ Len(e.classes) = Cardinality(classes) /\ e.rn = Len(e.classes))
        /\ Report("C19:mappings_total_and_inverse",
                  /\ {p[1] : p \in toRed} = af.args /\ Len(e.to_reduced) = Cardinality(af.args)
